@@ -14,6 +14,7 @@ FUEL = ('{', 'after', 'proof { reveal_with_fuel(typed, 6); }')
 
 def build():
     U = Unit('ASTX', props=P)
+    U.default_closures = True     # rule-based D3/D16 (vlib/closures.py) applies to every function of this unit
     U.tag_loops = True
     nodes_src = open(os.path.join(REPO, NODES)).read()
     structs = []
